@@ -71,6 +71,13 @@ def _check(case, rec, layer):
     rmn = float(d["simulation_results"]["min_hp_eft"]["value"])
     fmx, fmn, _ = guarded(gs.fresh_simulate, case, coords, h, layer, what="fresh re-simulation")
     err = max(abs(rmx - fmx), abs(rmn - fmn))
+    if err > 1e-3 and out.escaped:
+        # the 'smallest available configuration' fallback of some searches builds the final object (and with it the
+        # hybrid loads, which are never updated) at the minimum instead of the maximum height: accept either
+        a, b, _ = guarded(gs.fresh_simulate, case, coords, h, layer, construct_h=case["hmin"], what="fresh re-simulation")
+        if max(abs(rmx - a), abs(rmn - b)) < err:
+            fmx, fmn = a, b
+            err = max(abs(rmx - fmx), abs(rmn - fmn))
     rec.note_max("max_reported_vs_fresh_K", err)
     if err > 1e-3:
         disc = bool(guarded(gs.at_discontinuity, case, coords, h, layer, what="discontinuity probe"))
